@@ -19,7 +19,8 @@ func c14RunCase(c *Ctx, raw []byte) string {
 	return c14Exec(c, cs)
 }
 
-func c14Exec(c *Ctx, cs docCase) string {
+func c14Exec(c *Ctx, cs docCase) (outcome string) {
+	defer c.guardCase("gob-roundtrip", cs, &outcome)
 	feat := func() map[string]string { return map[string]string{"kind": cs.Kind, "target": cs.Target} }
 	var v1, v2 interface{}
 	if cs.Target == "ref" {
